@@ -370,6 +370,152 @@ def build(params):
     return world
 
 
+def run_same_read(params, known):
+    '''Two adversarial messages arriving in ONE read: every contact-phase message followed by every
+    message of the alphabet on a fresh endpoint, and every ordered pair of in-session messages after
+    a good negotiation (both roles).  Judged for C17: nothing escapes the receive callback and what
+    the endpoint writes stays decodable.  Judged for C07 (prop=C07): the endpoint ends up exactly as
+    when the two messages arrive in separate reads.'''
+    prop = params.get('prop', PROP)
+    violations = []
+    kinds = set()
+    count = 0
+    keys = set()
+
+    def viol(kind, detail, case):
+        if kind in kinds:
+            return
+        kinds.add(kind)
+        v = Violation(prop, 'adversary', kind, dict(), '%r: %s' % (case, detail)).as_dict()
+        v['case'] = case
+        violations.append(v)
+
+    def fresh(role, established):
+        w = PeerWorld(dict(role=role, queued=(OWN,), seg_mru=64, tx_init=64))
+        if established:
+            w.peer_write(OCTETS[NAMES.index('ch-good')] + OCTETS[NAMES.index('sess-init')])
+            w.quiesce()
+        return w
+
+    def view(w):
+        return (w.out_octets, tuple(w.signals), w.r_closed())
+    for role in ('passive', 'active'):
+        for established in (False, True):
+            firsts = [n for n in NAMES if n.startswith('ch-') != established]
+            for a in firsts:
+                for b in NAMES:
+                    if established and b.startswith('ch-'):
+                        continue
+                    count += 1
+                    case = dict(role=role, established=established, first=a, second=b)
+                    (oa, ob) = (OCTETS[NAMES.index(a)], OCTETS[NAMES.index(b)])
+                    one = fresh(role, established)
+                    one.peer_write(oa + ob)
+                    one.quiesce()
+                    two = fresh(role, established)
+                    two.peer_write(oa)
+                    two.quiesce()
+                    two.peer_write(ob)
+                    two.quiesce()
+                    keys.add('%s/%s/%s+%s' % (role, established, a, b))
+                    if prop == 'C07':
+                        if a.startswith('unknown-type'):
+                            continue    # a message type without known length: where it ends depends on what has arrived
+                        if not one.escaped and not two.escaped and view(one) != view(two):
+                            viol('chunking-changes-behaviour', 'one read: wrote %s closed=%s; two reads: wrote %s closed=%s'
+                                 % (one.out_octets.hex()[-80:], one.r_closed(), two.out_octets.hex()[-80:], two.r_closed()), case)
+                        continue
+                    for (w, how) in ((one, 'one read'), (two, 'two reads')):
+                        if w.escaped:
+                            viol('exception-escaped-callback', '%s: %s: %s' % (how, w.escaped[-1][0], w.escaped[-1][2]), dict(case, how=how))
+                        try:
+                            T.parse_all(w.out_octets, with_contact=True)
+                        except Exception as err:
+                            viol('undecodable-octets-written', '%s: %s: %s' % (how, type(err).__name__, err), dict(case, how=how))
+    return dict(name=params['name'], kind='enum', evaluations=count, nontrivial_keys=sorted(keys), violations=violations, known=[], samples=[])
+
+
+def run_unstarted(params, known):
+    '''The out-of-place message concerns a transfer of the endpoint that is queued but of which
+    nothing has been sent yet: one or two bundles are handed to an established endpoint and, before
+    its loop has started the first, the peer's XFER_ACK (every flag combination, lengths 0 / 5 / 7) or
+    XFER_REFUSE naming transfer 1, 2 or an unknown one arrives.  Afterwards the peer is a conforming
+    one (acknowledges what is really sent).  No transfer may be reported finished before its last
+    segment has been written; each is reported exactly once; nothing escapes.'''
+    from ..peer_world import PATH as RPATH, IFACE as RIFACE
+    violations = []
+    kinds = set()
+    count = 0
+    keys = set()
+
+    def viol(kind, detail, case):
+        if kind in kinds:
+            return
+        kinds.add(kind)
+        v = Violation(PROP, 'adversary', kind, dict(), '%r: %s' % (case, detail)).as_dict()
+        v['case'] = case
+        violations.append(v)
+    strays = []
+    for tid in (1, 2, 9):
+        for flags in (0, 1, 2, 3):
+            for length in (0, 5, 7):
+                strays.append(('ack id=%d flags=%d length=%d' % (tid, flags, length), T.enc_ack(flags, tid, length)))
+        for reason in (0, 2):
+            strays.append(('refuse id=%d reason=%d' % (tid, reason), T.enc_refuse(reason, tid)))
+    bundles = [bytes(range(0x30, 0x35)), bytes(range(0x40, 0x47))]
+    for role in ('passive', 'active'):
+        for nb in (1, 2):
+            for seg in (64, 4):
+                for (sname, octets) in strays:
+                    count += 1
+                    case = dict(role=role, bundles=nb, segment_size=seg, stray=sname)
+                    w = PeerWorld(dict(role=role, keepalive=0, idle=0, seg_mru=64, tx_init=seg))
+                    w.peer_write(T.enc_contact(0) + T.enc_sess_init(0, seg, 1000, b'dtn://p/'))
+                    w.quiesce()
+                    for d in bundles[:nb]:
+                        w.bus_call(w.proc, RPATH, 'send_bundle_data', d, iface=RIFACE)
+                    before = len(w.out_octets)
+                    w.peer_write(octets)
+                    # a conforming peer from here on
+                    acked = 0
+                    totals = {}
+                    for _round in range(40):
+                        w.quiesce()
+                        try:
+                            (msgs, _rest) = T.parse_all(w.out_octets, with_contact=True)
+                        except Exception as err:
+                            viol('undecodable-octets-written', '%s: %s' % (type(err).__name__, err), case)
+                            break
+                        segs = [m for m in msgs if m['kind'] == 'XFER_SEGMENT']
+                        # was anything reported finished although its last segment has not been written?
+                        ended = {m['transfer_id'] for m in segs if m['flags'] & 1}
+                        for sg in w.signals:
+                            if sg[0] == 'send_bundle_finished' and int(sg[1]) not in ended and not w.r_closed() \
+                                    and 'ending' not in [x[1] for x in w.signals if x[0] == 'session_state_changed']:
+                                viol('transfer-reported-finished-before-it-was-sent', 'signal %r, segments written so far %r'
+                                     % (sg, [(m['transfer_id'], m['flags']) for m in segs]), case)
+                        if acked >= len(segs) or w.r_closed():
+                            break
+                        m = segs[acked]
+                        acked += 1
+                        totals[m['transfer_id']] = totals.get(m['transfer_id'], 0) + len(m['data'])
+                        w.peer_write(T.enc_ack(m['flags'], m['transfer_id'], totals[m['transfer_id']]))
+                    keys.add('%s/%d/%d/%s' % (role, nb, seg, sname))
+                    if w.escaped:
+                        viol('exception-escaped-callback', '%s: %s' % (w.escaped[-1][0], w.escaped[-1][2]), case)
+                        continue
+                    if w.r_closed() or 'ending' in [x[1] for x in w.signals if x[0] == 'session_state_changed']:
+                        continue        # the endpoint answered by ending the session: a permitted refusal
+                    fin = {}
+                    for sg in w.signals:
+                        if sg[0] == 'send_bundle_finished':
+                            fin.setdefault(int(sg[1]), []).append(sg[3])
+                    for k in range(1, nb + 1):
+                        if fin.get(k) != ['success']:
+                            viol('own-transfer-not-completed-after-stray-message', 'transfer %d finished %r (all: %r)' % (k, fin.get(k), fin), case)
+    return dict(name=params['name'], kind='enum', evaluations=count, nontrivial_keys=sorted(keys), violations=violations, known=[], samples=[])
+
+
 def scenarios(tier):
     depth = 6 if tier == "thorough" else 5
     out = []
@@ -382,6 +528,8 @@ def scenarios(tier):
             out.append(dict(name=nm, kind='graph', dev_bound=0, max_states=600000, liveness=False, weight=30,
                             params=dict(scripted_peer=True, role=role, bundles=[bytes(range(0xa0, 0xa9)).hex()], chunk=9,
                                         refuse=False, user_term=False, peer_term=False, stray=stray)))
+    out.append(dict(name='same-read', kind='enum', runner='run_same_read', params=dict(name='same-read'), weight=30))
+    out.append(dict(name='unstarted-transfer', kind='enum', runner='run_unstarted', params=dict(name='unstarted-transfer'), weight=30))
     for role in ('passive', 'active'):
         tag = '' if role == 'passive' else 'active/'
         for first in ('ch-bad-magic', 'ch-v3', 'ch-v3-not-utf8', 'ch-v5', 'ch-v255'):
@@ -402,6 +550,8 @@ ASSUMPTIONS = [
     'the first thing a peer sends is some contact header (good, bad magic, TCPCLv3, version 5 or 255); anything else at that point is the bad-magic case',
     'after the peer\'s own SESS_TERM, after an unknown message type (framing lost) and after closure only "no escaped exception, output decodable" is required',
     'a refusal may be MSG_REJECT, SESS_TERM or closing the connection',
+    'same read: every contact-phase message followed by every alphabet message, and every ordered pair of in-session messages, delivered in one read and in two (both roles)',
+    'unstarted transfers: 42 acknowledgements / refusals naming transfer 1, 2 or 9 arriving after one or two bundles were queued and before the first segment is written (segment size 64 or 4), then a conforming peer',
     'mid-write graphs: a scripted peer that acknowledges in order and sends one acknowledgement / refusal of a non-existent transfer at any point, against an endpoint writing a three-segment transfer in 9-octet chunks; every callback is a step',
 ]
 
@@ -412,4 +562,14 @@ RULE = ('explicit-state BFS: every sequence of adversarial messages (21-message 
 
 
 def evidence(tier, seed, scens, results, wall_s):
-    return graph_evidence(PROP, tier, seed, scens, results, wall_s, ASSUMPTIONS, RULE)
+    graphs = [r for r in results if r and r.get('kind') == 'graph']
+    enums = [r for r in results if r and r.get('kind') == 'enum']
+    ev = graph_evidence(PROP, tier, seed, [sc for sc in scens if sc['kind'] == 'graph'], graphs, wall_s, ASSUMPTIONS, RULE)
+    cov = ev['coverage']
+    cov['evaluations'] = sum(r.get('evaluations', 0) for r in enums)
+    keys = set()
+    for r in enums:
+        keys.update(r.get('nontrivial_keys', []))
+    cov['distinct_nontrivial'] = len(keys)
+    cov['exhaustive'] = cov['exhaustive'] and len([r for r in results if r and r.get('kind') != 'error']) == len(results)
+    return ev
